@@ -8,6 +8,7 @@ HOOK_COMMITS = subprocess.run(
 
 # id -> (technique, level text, level note)
 CHECKS = {
+ "C32": ("differential PBT against independent implementations (own SHA-256/Keccak, BigUint curve arithmetic, ZCash decoding, ECDSA, RFC 9380; discrete-log oracle for pairings)", "sha256/keccak256/coinid, point_add, pubkey_for_exp, g1/g2 add/subtract/multiply/negate, g1_map/g2_map, bls_pairing_identity, bls_verify and both secp verify operators are called on structured valid, invalid and edge-case arguments; results and accept/reject decisions must equal those of implementations written independently in the harness (no call into blst/k256/p256): field and curve arithmetic over BigUint, subgroup check by multiplication with r, ZCash compressed decoding with every validity rule, SEC1 decoding, ECDSA verification (k1 low-S), RFC 9380 hash-to-curve; pairing decisions from known discrete logarithms without computing a pairing. The independent code must reproduce every pinned op-tests vector (values and FAILs) and pass a mathematical self-test before each run.", "independent implementations trusted up to their calibration (1500+ pinned vectors incl. 856 hash-to-curve vectors, RFC 9380 vector, on-curve/order self tests); isogeny coefficients are data of the standard validated mathematically at run time; known findings F8, F13 matched by exact signature; RELAXED_BLS negate of invalid encodings not compared"),
  "C01": ("differential PBT against an independent reference-VM port (proptest, generated programs)", "Generated classic-operator programs (typed grammar + near-valid mutations + unknown opcodes) are executed by the implementation and by a function-by-function port of the reference Python clvm (own evaluator, own casts, own costs; adapters A1 div-floor and A2 softfork guard only); success, result tree and cost must agree at several budgets. The port is calibrated on every classic op-tests vector and the classic TEST_CASES before each run. Exploration: no proof of absence; the reference is my port, not the original package (absent from the sandbox).", "reference port trusted up to its calibration on the pinned vectors; error kinds not compared; known findings F6/F12 matched by exact signature"),
  "C09": ("model-based PBT against the published unknown-opcode rule (u128 arithmetic) + constructed overflow corner", "op_unknown and run_program on generated opcode byte strings and argument lists (incl. multi-MiB operands constructed so that base*(multiplier+1) wraps modulo 2^64 to a small value) are compared with a direct transcription of the documented rule computed without wrap-around, both cost models, strict and lenient, several budgets.", "rule transcribed from the comment block in more_ops.rs; known finding F4 matched by signature (exact product >= 2^64 and returned cost == product mod 2^64)"),
  "C10": ("model-based PBT against the documented cost formulas, calibrated on all op-tests vectors", "Every operator of ChiaDialect under both cost models (and MALACHITE) is called on argument lists built for success; the charged cost must equal the documented formula evaluated on argument lengths, limb counts and result length, directly and inside run_program; sha256tree over heavily shared DAGs.", "formulas written from docs/cost-model.md, docs/sha256tree.md and the constant blocks; where prose and pinned vectors differ the vectors decide (calibration step)"),
@@ -58,7 +59,7 @@ for pid in props:
         "level_note": note or "generated-input search; bounds as stated in the evidence rule",
         "technique": tech,
     })
-na = [{"property_id": p, "reason": "check not built yet (planned, see DESIGN.md section 5)"} for p in props if p not in CHECKS]
+na = [{"property_id": p, "reason": "check not built (see DESIGN.md)"} for p in props if p not in CHECKS]
 manifest = {
     "version": 1,
     "setup_cmd": "bin/setup",
@@ -72,6 +73,8 @@ manifest = {
     "engines": [
         {"name": "verif-harness", "path": "/verif/harness", "serves_properties": [c["property_id"] for c in checks if c["engine"] == "verif-harness"],
          "kind_free_text": "Rust crate: proptest-driven choice-tape generators, independent reference models, parallel runner with shrinking, replay and evidence"},
+        {"name": "libfuzzer", "path": "/verif/fuzz", "serves_properties": ["C01", "C16", "C18", "C20", "C25"],
+         "kind_free_text": "cargo-fuzz / libFuzzer targets (ASan, -O) used by the thorough tiers through bin/fuzzrun: inputs are decoded into cases of the check and judged by the check's own oracle inside the target (harness/src/fuzzglue.rs); artifacts are re-run on the release harness before being reported"},
         {"name": "py-hypothesis", "path": "/verif/py", "serves_properties": ["C22", "C26", "C27", "C28"],
          "kind_free_text": "Hypothesis checks of the Python wheel (built offline from /repo/wheel), differential against the Rust harness' oracle server (vh serve)"},
     ],
